@@ -27,6 +27,7 @@
 
 #include "snoopy.h"
 
+#include <errno.h>
 #include <limits.h>
 #include <pwd.h>
 #include <stdio.h>
@@ -54,6 +55,7 @@ char * snoopy_util_pwd_convertUidToUsername (uid_t uid)
     char          *buffpwd_uid = NULL;
     long           buffpwdsize_uid = 0;
     char          *username = NULL;
+    int            lookupRetVal;
 
 
     /* Allocate memory */
@@ -75,8 +77,23 @@ char * snoopy_util_pwd_convertUidToUsername (uid_t uid)
     username[0] = '\0';
 
 
-    /* Try uid->username conversion */
-    if (0 != getpwuid_r(uid, &pwd, buffpwd_uid, buffpwdsize_uid, &pwd_uid)) {
+    /*
+     * Try uid->username conversion. ERANGE means that the entry - or any entry the
+     * C library had to read on its way to it - does not fit into the buffer: retry
+     * with a bigger one (the size suggested by sysconf() is only a hint).
+     */
+    lookupRetVal = getpwuid_r(uid, &pwd, buffpwd_uid, buffpwdsize_uid, &pwd_uid);
+    while ((ERANGE == lookupRetVal) && (buffpwdsize_uid < 1048576)) {
+        char *biggerBuf;
+        buffpwdsize_uid *= 2;
+        biggerBuf = realloc(buffpwd_uid, buffpwdsize_uid);
+        if (NULL == biggerBuf) {
+            break;
+        }
+        buffpwd_uid = biggerBuf;
+        lookupRetVal = getpwuid_r(uid, &pwd, buffpwd_uid, buffpwdsize_uid, &pwd_uid);
+    }
+    if (0 != lookupRetVal) {
         free(buffpwd_uid);
         free(username);
         return NULL;
